@@ -6,6 +6,7 @@ The runner evaluates the property text on the implementation and returns the lis
 violated clauses  [[what, detail], ...]  ([] = all clauses hold, [0] = not a value).
 """
 import os
+import re
 
 import dns.exception
 import dns.name
@@ -236,6 +237,47 @@ STYLES = [
 ]
 
 
+# variable-length fields that have no text form when empty (to_text prints nothing / a double
+# blank, from_text needs at least one token): known finding C05 "empty-field-no-text"
+EMPTY_FIELDS = {
+    "DS": ["digest"], "CDS": ["digest"], "DLV": ["digest"], "DNSKEY": ["key"], "CDNSKEY": ["key"], "KEY": ["key"],
+    "RRSIG": ["signature"], "SIG": ["signature"], "TLSA": ["cert"], "SMIMEA": ["cert"], "SSHFP": ["fingerprint"],
+    "CERT": ["certificate"], "DHCID": ["data"], "OPENPGPKEY": ["key"], "BRID": ["value"], "HHIT": ["value"],
+    "ZONEMD": ["digest"], "IPSECKEY": ["key"], "TKEY": ["key"], "TSIG": ["mac"], "HIP": ["hit", "key"], "NSEC3": ["next"],
+}
+
+
+def canonical_bitmap(windows):
+    """RFC 4034 4.1.2 / RFC 5155 3.2.1: no trailing zero octets (hence no empty block), type 0 clear"""
+    for window, bitmap in windows:
+        if len(bitmap) == 0 or bitmap[-1] == 0:
+            return False
+        if window == 0 and bitmap[0] & 0x80:
+            return False
+    return True
+
+
+def well_formed(x, tname):
+    """Values the library accepts from wire although the RFCs forbid them and whose text form
+    therefore has no reason to read back to the same octets (reason returned, None = well-formed)."""
+    if tname in ("NSEC", "NSEC3", "CSYNC") and not canonical_bitmap(x.windows):
+        return "non-canonical type bitmap (trailing zero octets / empty block / bit 0)"
+    if tname == "KEY" and (int(x.flags) & 0xC000) == 0xC000 and len(x.key) > 0:
+        return "KEY with NOKEY flags and key data (RFC 2535 3.1.2)"
+    if tname == "WKS" and len(x.bitmap) > 8192:
+        return "WKS bitmap longer than 65536 bits (ports are 16 bit)"
+    return None
+
+
+def note_for(x, tname):
+    for f in EMPTY_FIELDS.get(tname, []):
+        if len(getattr(x, f)) == 0:
+            return "empty-field-no-text"
+    if tname == "WKS" and len(x.bitmap) > 0 and x.bitmap[-1] == 0:
+        return "wks-trailing-zero-octets"
+    return "-"
+
+
 def _short(e):
     return (type(e).__name__ + ": " + str(e))[:120]
 
@@ -275,25 +317,37 @@ def value_checks(rdclass, rdtype, wire, use_origin, fails):
         x_abs = dns.rdata.from_wire(rdclass, rdtype, wire, 0, len(wire))
     except Exception:  # noqa  (rejected: not a value; non-library exceptions here are C04's business)
         return False
-    x_rel = x_sub = None
+    x_rel = x_sub = x_absn = None
     if use_origin:
         try:
             x_rel = dns.rdata.from_wire(rdclass, rdtype, wire, 0, len(wire), origin=ORIGIN)
             x_sub = dns.rdata.from_wire(rdclass, rdtype, wire, 0, len(wire), origin=ORIGIN2)
+            # relativizing is case-insensitive: a name below the origin comes back with the origin's
+            # own spelling, so the expected absolute record is the re-absolutized relative one
+            wn = x_rel.to_wire(origin=ORIGIN)
+            x_absn = dns.rdata.from_wire(rdclass, rdtype, wn, 0, len(wn))
         except Exception:  # noqa
-            x_rel = x_sub = None
+            x_rel = x_sub = x_absn = None
     tname = dns.rdatatype.to_text(rdtype)
+    if well_formed(x_abs, tname) is not None:
+        # only: producing text must not fail
+        try:
+            x_abs.to_text()
+        except Exception as e:  # noqa
+            fails.append(("to_text raised", f"{tname} note=not-well-formed exc={_short(e)}"))
+        return None
+    note = note_for(x_abs, tname)
     for sid, kw in STYLES:
-        tag = f"{tname} style={sid}"
+        tag = f"{tname} note={note} style={sid}"
         # names as they are
         _rt(x_abs, x_abs, rdclass, rdtype, kw, None, False, None, True, None, tag + " mode=abs-asis", fails)
         if x_rel is not None:
             _rt(x_rel, x_rel, rdclass, rdtype, kw, None, False, ORIGIN, True, None, tag + " mode=rel-asis", fails)
             # relativized on output, made absolute / kept relative on input
-            _rt(x_abs, x_abs, rdclass, rdtype, kw, ORIGIN, True, ORIGIN, False, None, tag + " mode=relout-absin", fails)
+            _rt(x_abs, x_absn, rdclass, rdtype, kw, ORIGIN, True, ORIGIN, False, None, tag + " mode=relout-absin", fails)
             _rt(x_abs, x_rel, rdclass, rdtype, kw, ORIGIN, True, ORIGIN, True, None, tag + " mode=relout-relin", fails)
             # derelativized on output
-            _rt(x_rel, x_abs, rdclass, rdtype, kw, ORIGIN, False, None, True, None, tag + " mode=absout", fails)
+            _rt(x_rel, x_absn, rdclass, rdtype, kw, ORIGIN, False, None, True, None, tag + " mode=absout", fails)
             # relativize_to a different origin
             _rt(x_rel, x_sub, rdclass, rdtype, kw, None, False, ORIGIN, True, ORIGIN2, tag + " mode=relto", fails)
         if fails and sid == "default":
@@ -314,7 +368,7 @@ def value_checks(rdclass, rdtype, wire, use_origin, fails):
                 fails.append(("generic text does not round-trip as an unknown type", f"{tname} style={sid} text={gt[:120]!r}"))
         if x_rel is not None:
             g2 = x_rel.to_generic(origin=ORIGIN)
-            if bytes(g2.data) != bytes(g.data):
+            if dns.rdata.from_wire(rdclass, rdtype, g2.data, 0, len(g2.data)) != x_absn:
                 fails.append(("to_generic(origin) of the relativized record differs", tname))
     except Exception as e:  # noqa
         fails.append(("generic form raised", f"{tname} exc={_short(e)}"))
@@ -325,8 +379,11 @@ def run_record_case(case):
     op, rdclass, rdtype = case[0], case[1], case[2]
     fails = []
     if op == 100:
-        if not value_checks(rdclass, rdtype, bytes(case[3]), bool(case[4]), fails):
+        r = value_checks(rdclass, rdtype, bytes(case[3]), bool(case[4]), fails)
+        if r is False:
             return [0]
+        if r is None and not fails:
+            return [1]
     else:
         text = bytes(case[3]).decode("utf-8", "surrogatepass")
         origin = ORIGIN if case[4] else None
@@ -337,21 +394,23 @@ def run_record_case(case):
             return [0]
         except Exception as e:  # noqa
             return [["from_text raised a non-library exception", f"{tname} text={text[:120]!r} exc={_short(e)}"]]
+        note = note_for(y, tname)
+        wf = well_formed(y, tname) is None
         try:
             w = y.to_wire(origin=ORIGIN)
         except Exception as e:  # noqa
-            fails.append(("accepted from text but to_wire raised", f"{tname} text={text[:120]!r} exc={_short(e)}"))
+            fails.append(("accepted from text but to_wire raised", f"{tname} note={note} text={text[:120]!r} exc={_short(e)}"))
             w = None
         try:
             t2 = y.to_text()
             try:
-                y2 = dns.rdata.from_text(rdclass, rdtype, t2, origin=origin, relativize=bool(case[5]))
+                y2 = dns.rdata.from_text(rdclass, rdtype, t2, origin=origin, relativize=bool(case[5])) if wf else y
                 if y2 != y:
-                    fails.append(("text parses back to a different record", f"{tname} mode=fromtext text={t2[:150]!r} got={_safe_text(y2)[:150]!r}"))
+                    fails.append(("text parses back to a different record", f"{tname} note={note} mode=fromtext text={t2[:150]!r} got={_safe_text(y2)[:150]!r}"))
             except Exception as e:  # noqa
-                fails.append(("text does not parse back", f"{tname} mode=fromtext text={t2[:150]!r} exc={_short(e)}"))
+                fails.append(("text does not parse back", f"{tname} note={note} mode=fromtext text={t2[:150]!r} exc={_short(e)}"))
         except Exception as e:  # noqa
-            fails.append(("to_text raised", f"{tname} mode=fromtext text={text[:120]!r} exc={_short(e)}"))
+            fails.append(("to_text raised", f"{tname} note={note} mode=fromtext text={text[:120]!r} exc={_short(e)}"))
         if w is not None and not fails:
             value_checks(rdclass, rdtype, w, bool(case[4]), fails)
     return [[a.encode("ascii", "replace"), b.encode("ascii", "backslashreplace")] for a, b in fails[:6]]
@@ -364,10 +423,16 @@ def record_oracle(ctx, kind, case, out):
     if out == [0]:
         ctx.count("rd-rejected")
         return F
+    if out == [1]:
+        ctx.count("rd-not-well-formed")
+        return F
     ctx.count("rd-value")
     tname = dns.rdatatype.to_text(case[2])
     for item in out:
         what = bytes(item[0]).decode()
         detail = bytes(item[1]).decode()
-        F.append({"kind": "rd:" + what, "what": what, "rdtype": tname, "detail": detail, "sig": tname + ":" + what})
+        m = re.search(r"note=(\S+)", detail)
+        mode = re.search(r"mode=(\S+)", detail)
+        F.append({"kind": "rd:" + what, "what": what, "rdtype": tname, "note": m.group(1) if m else "-",
+                  "mode": mode.group(1) if mode else "-", "detail": detail, "sig": tname + ":" + what})
     return F
